@@ -153,7 +153,7 @@ def wf_slice(s: V) -> bool:
 
 
 def is_json(v: V) -> bool:
-    """A1: a JSON-like value as json.load gives: finite tree of dict (distinct str keys) / list / scalars"""
+    """opaque: A1: a JSON-like value as json.load gives: finite tree of dict (distinct str keys) / list / scalars"""
     if is_arr(v):
         return all(is_json(x) for x in seq(v))
     if is_obj(v):
@@ -165,3 +165,162 @@ def is_json(v: V) -> bool:
 
 def wf_node(n: V) -> bool:
     return isinstance(n, JSONPathNode) and is_tuple(n.location) and is_json(n.value)
+
+
+# ---- filter selector (2.3.5): children whose filter expression is true ------
+def filter_prefix(expr: V, env: V, node: V, k: int) -> list:
+    if k <= 0:
+        return []
+    if truth(expr, Ctx(env, kid_val(node.value, k - 1), node.root)):
+        return filter_prefix(expr, env, node, k - 1) + [kid(node, k - 1)]
+    return filter_prefix(expr, env, node, k - 1)
+
+
+def sel_filter(expr: V, env: V, node: V) -> list:
+    return filter_prefix(expr, env, node, nkids(node.value))
+
+
+# ---- selector dispatch ------------------------------------------------------
+def select(sel: V, node: V) -> list:
+    if isinstance(sel, NameSelector):
+        return sel_name(node, str_of(sel.name))
+    if isinstance(sel, IndexSelector):
+        return sel_index(node, int_of(sel.index))
+    if isinstance(sel, SliceSelector):
+        return sel_slice(node, sel.slice.start, sel.slice.stop, sel.slice.step)
+    if isinstance(sel, WildcardSelector):
+        return sel_wild(node)
+    if isinstance(sel, FilterSelector):
+        return sel_filter(sel.expression, sel.env, node)
+    return []
+
+
+# ---- child segment (2.5.1): per input node, selectors in order, concatenated ----
+def flat_sel(selectors: list, node: V, k: int) -> list:
+    if k <= 0:
+        return []
+    return flat_sel(selectors, node, k - 1) + select(selectors[k - 1], node)
+
+
+def child_seg(selectors: list, nodes: list, k: int) -> list:
+    if k <= 0:
+        return []
+    return child_seg(selectors, nodes, k - 1) + flat_sel(selectors, nodes[k - 1], len(selectors))
+
+
+# ---- descendant segment (2.5.2): node and its descendants in document pre-order ----
+def preorder(node: V) -> list:
+    return [node] + pre_kids(node, nkids(node.value))
+
+
+def pre_kids(node: V, k: int) -> list:
+    """pre-order visit of the first k children of node that are containers (scalars have no descendants
+    and are reached by the selectors applied to their parent)"""
+    if k <= 0:
+        return []
+    if is_container(kid_val(node.value, k - 1)):
+        return pre_kids(node, k - 1) + preorder(kid(node, k - 1))
+    return pre_kids(node, k - 1)
+
+
+def desc_seg(selectors: list, nodes: list, k: int) -> list:
+    if k <= 0:
+        return []
+    return desc_seg(selectors, nodes, k - 1) + child_seg(selectors, preorder(nodes[k - 1]), len(preorder(nodes[k - 1])))
+
+
+# ---- a query: segments applied left to right ---------------------------------
+def apply_segment(seg: V, nodes: list) -> list:
+    if isinstance(seg, JSONPathRecursiveDescentSegment):
+        return desc_seg(seq(seg.selectors), nodes, len(nodes))
+    return child_seg(seq(seg.selectors), nodes, len(nodes))
+
+
+def apply_segments(segments: list, nodes: list, k: int) -> list:
+    if k <= 0:
+        return nodes
+    return apply_segment(segments[k - 1], apply_segments(segments, nodes, k - 1))
+
+
+def root_node(value: V) -> V:
+    return Node(value, mk_tuple([]), value)
+
+
+def query_nodes(segments: list, value: V) -> list:
+    return apply_segments(segments, [root_node(value)], len(segments))
+
+
+# ---- container nesting depth (C18) --------------------------------------------
+def cdepth(v: V) -> int:
+    """number of nested containers on the deepest branch: scalars 0, [] and {} 1, [[]] 2"""
+    if is_container(v):
+        return 1 + mx_kids(v, nkids(v))
+    return 0
+
+
+def mx_kids(v: V, k: int) -> int:
+    if k <= 0:
+        return 0
+    return max(mx_kids(v, k - 1), cdepth(kid_val(v, k - 1)))
+
+
+# ---- well-formedness of compiled objects --------------------------------------
+# (what the parser establishes; `wf_query(compile(q), env)` is checked by the bounded Layer-P run)
+def wf_env(env: V) -> bool:
+    """opaque: an environment: integer limits, a registry of typed functions"""
+    return (isinstance(env, JSONPathEnvironment) and is_int(env.max_recursion_depth)
+            and is_int(env.min_int_index) and is_int(env.max_int_index) and wf_registry(env.function_extensions))
+
+
+def wf_selector(sel: V, env: V) -> bool:
+    """opaque: a selector as the parser builds it, bound (with everything nested in it) to env"""
+    if isinstance(sel, NameSelector):
+        return is_str(sel.name) and sel.env == env
+    if isinstance(sel, IndexSelector):
+        return is_int(sel.index) and sel.env == env
+    if isinstance(sel, SliceSelector):
+        return wf_slice(sel.slice) and sel.env == env
+    if isinstance(sel, WildcardSelector):
+        return sel.env == env
+    if isinstance(sel, FilterSelector):
+        return sel.env == env and isinstance(sel.expression, FilterExpression) and wf_expr(sel.expression, env)
+    return False
+
+
+def wf_segment(seg: V, env: V) -> bool:
+    """opaque: a segment: a tuple of selectors, all bound to env"""
+    return (isinstance(seg, JSONPathSegment) and seg.env == env and is_tuple(seg.selectors)
+            and all(isinstance(s, JSONPathSelector) and s.env == env and wf_selector(s, env) for s in seq(seg.selectors)))
+
+
+def wf_query(q: V, env: V) -> bool:
+    """opaque: a compiled query: a tuple of segments, all bound to env"""
+    return (isinstance(q, JSONPathQuery) and q.env == env and is_tuple(q.segments)
+            and all(isinstance(s, JSONPathSegment) and s.env == env and wf_segment(s, env) for s in seq(q.segments)))
+
+
+def det(env: V) -> bool:
+    """deterministic mode (the default): the environment's nondeterministic flag is off"""
+    return not truthy(env.nondeterministic)
+
+
+# ---- iterables of nodes handed from segment to segment -----------------------------------
+def is_nodes(x: V) -> bool:
+    return is_arr(x) or is_nodelist(x) or is_gen(x)
+
+
+def no_pending(x: V) -> bool:
+    """the iterable is exhausted without raising"""
+    return not is_gen(x) or is_none(pending(x))
+
+
+def pending_ok(x: V) -> bool:
+    return no_pending(x) or exc_is(pending(x), JSONPathError)
+
+
+def wf_nodes(x: V) -> bool:
+    return is_nodes(x) and pending_ok(x) and all_wf_nodes(seq(x))
+
+
+def all_wf_nodes(nodes: list) -> bool:
+    return all(wf_node(n) for n in nodes)
